@@ -29,7 +29,7 @@ def run(files, unwind, defs=(), incs=(), timeout_s=300, mem_gb=16, extra=(), fun
         # traces per failed property: "Trace for main.assertion.1:" ... assignments "  name=value (bits)"
         for tm in re.finditer(r'Trace for ([^\n:]+):\n(.*?)(?=\nTrace for |\n\*\* |\Z)', out, re.S):
             asg = {}
-            for am in re.finditer(r'^\s+([A-Za-z_][\w\.\[\]!@]*)=([^\s]+)(?: \(([01 ]+)\))?$', tm.group(2), re.M):
+            for am in re.finditer(r"^\s+([A-Za-z_][\w\.\[\]!@]*)=('(?:[^'\\]|\\.)+'|[^\s]+)(?: \(([01 ]+)\))?$", tm.group(2), re.M):
                 asg[am.group(1)] = am.group(2)
             res['trace'][tm.group(1).strip()] = asg
     return res
